@@ -371,7 +371,14 @@ func partMulti(run *ev.Run, maxK int) (evals int, distinct map[string]bool) {
 			total *= len(outs)
 		}
 		for v := 0; v < total; v++ {
-			for _, combine := range []bool{false, true} {
+			for ci := 0; ci < 6; ci++ {
+				// error identity: distinct values; one shared value (io.ErrClosedPipe from every failing sink);
+				// a chain in which every failing sink's error wraps the previous one's (k <= 4 for the last two)
+				combine, errKind := ci%2 == 1, ci/2
+				if errKind > 0 && k > 4 {
+					continue
+				}
+				var prevErr error
 				vec := make([]outcome, k)
 				x := v
 				sinks := make([]*scriptedSyncer, k)
@@ -384,7 +391,15 @@ func partMulti(run *ev.Run, maxK int) (evals int, distinct map[string]bool) {
 					x /= len(outs)
 					sinks[i] = &scriptedSyncer{scripted{n: vec[i].n}}
 					if vec[i].err {
-						sinks[i].err = fmt.Errorf("E%d", i)
+						switch {
+						case errKind == 1:
+							sinks[i].err = io.ErrClosedPipe
+						case errKind == 2 && prevErr != nil:
+							sinks[i].err = fmt.Errorf("E%d: %w", i, prevErr)
+						default:
+							sinks[i].err = fmt.Errorf("E%d", i)
+						}
+						prevErr = sinks[i].err
 						wantErrs = append(wantErrs, sinks[i].err)
 					}
 					wss[i] = sinks[i]
@@ -393,6 +408,7 @@ func partMulti(run *ev.Run, maxK int) (evals int, distinct map[string]bool) {
 					}
 					label += fmt.Sprintf("(%d,%v)", cnt(vec[i]), vec[i].err)
 				}
+				label += [...]string{"", " [every failing sink returns the same error value]", " [every failing sink's error wraps the previous one's]"}[errKind]
 				var ws zapcore.WriteSyncer
 				name := "NewMultiWriteSyncer"
 				if combine {
@@ -430,7 +446,8 @@ func partMulti(run *ev.Run, maxK int) (evals int, distinct map[string]bool) {
 		}
 		// Sync vectors
 		for v := 0; v < 1<<k; v++ {
-			for _, combine := range []bool{false, true} {
+			for ci := 0; ci < 4; ci++ {
+				combine, shared := ci%2 == 1, ci/2 == 1
 				sinks := make([]*scriptedSyncer, k)
 				wss := make([]zapcore.WriteSyncer, k)
 				var wantErrs []error
@@ -438,6 +455,9 @@ func partMulti(run *ev.Run, maxK int) (evals int, distinct map[string]bool) {
 					sinks[i] = &scriptedSyncer{scripted{n: -1}}
 					if v&(1<<i) != 0 {
 						sinks[i].serr = fmt.Errorf("S%d", i)
+						if shared {
+							sinks[i].serr = os.ErrClosed
+						}
 						wantErrs = append(wantErrs, sinks[i].serr)
 					}
 					wss[i] = sinks[i]
@@ -660,7 +680,7 @@ func main() {
 		"traces_validated_against_impl": int64(e1+e2+e3) + sum.Execs,
 		"evaluations":                   int64(e1+e2+e3) + sum.Execs,
 		"distinct_nontrivial":           len(d1) + len(d3) + len(sum.Outcomes),
-		"rule":                          "writers: every string of <=4 units over {a,space,LF,TAB,CR} plus 64KiB payloads on every zap writer, fresh and in sequence; relays: every (count,error,sync error) outcome; multi: every outcome vector in {full,short,zero}x{nil,err} for k<=maxK sinks on Write and every failure mask on Sync, via NewMultiWriteSyncer and CombineWriteSyncers; lock: all interleavings. distinct = distinct (writer class, outcome) / outcome vectors / end observations",
+		"rule":                          "writers: every string of <=4 units over {a,space,LF,TAB,CR} plus 64KiB payloads on every zap writer, fresh and in sequence; relays: every (count,error,sync error) outcome; multi: every outcome vector in {full,short,zero}x{nil,err} for k<=maxK sinks on Write and every failure mask on Sync, via NewMultiWriteSyncer and CombineWriteSyncers, the failing sinks returning distinct error values, one shared error value, or (k<=4) errors that wrap one another; lock: all interleavings. distinct = distinct (writer class, outcome) / outcome vectors / end observations",
 		"samples": []any{
 			map[string]any{"writer": "std-log bridge NewStdLog", "payload": " a \n"},
 			map[string]any{"multi_outcomes": "(0,false)(10,false)", "expect_count": 0},
